@@ -782,10 +782,10 @@ Section ExecInduction.
     - (* call *) apply xres_inv_strong, inv_exec_call, H.
     - (* ap *)
       destruct dst; [apply xres_inv_strong, (inv_ok_core _ _ x); [apply ok_core_exec_ap|exact H]|apply hook_case; auto].
-    - (* ap map *) exact I.
+    - (* ap map *) first [exact I|apply hook_case; auto].
     - (* canon *) apply hook_case; auto.
-    - (* canon map *) exact I.
-    - (* canon stream map scalar *) exact I.
+    - (* canon map *) first [exact I|apply hook_case; auto].
+    - (* canon stream map scalar *) first [exact I|apply hook_case; auto].
     - (* seq *)
       assert (P (flush_complete x)) as H1 by frame.
       pose proof (Run i1 _ H1) as R1. destruct (exec esi fuel i1 (flush_complete x)) as [x1| | | |]; cbn [xres_inv] in *; auto.
@@ -852,7 +852,7 @@ Section ExecInduction.
           destruct (exec esi fuel body x2) end; cbn [xres_inv] in *; auto; try frame; try (carry R2).
       + destruct (is_joinable e); cbn [xres_inv]; [frame|auto].
     - (* fold stream *) apply hook_case; auto.
-    - (* fold stream map *) exact I.
+    - (* fold stream map *) first [exact I|apply hook_case; auto].
     - (* never *) frame.
     - (* new *)
       destruct arg.
@@ -861,12 +861,12 @@ Section ExecInduction.
         * destruct (Scalars.meet_new_end vagg (x_scalars y) (v_name v)); cbn [lift xres_inv]; auto; try frame; try uncatch.
         * destruct (Scalars.meet_new_end vagg (x_scalars y) (v_name v)); cbn [xres_inv]; auto; try (carry R1).
       + apply hook_case; auto.
-      + exact I.
+      + first [exact I|apply hook_case; auto].
       + match goal with |- xres_inv P (match exec esi fuel body ?x1 with _ => _ end) => assert (P x1) as H1 by frame; pose proof (Run body _ H1) as R1;
           destruct (exec esi fuel body x1) as [y|e y| | |] end; cbn [xres_inv] in *; auto.
         * destruct (Scalars.meet_new_end canon_wp (x_canons y) (v_name v)); cbn [lift xres_inv]; auto; try frame; try uncatch.
         * destruct (Scalars.meet_new_end canon_wp (x_canons y) (v_name v)); cbn [xres_inv]; auto; try (carry R1).
-      + exact I.
+      + first [exact I|apply hook_case; auto].
     - (* next *)
       destruct (iter_get (x_iterables x) (v_name iter)) as [fs|]; cbn [xres_inv]; [|auto].
       destruct (fs_type fs); [|apply hook_case; auto].
@@ -1314,19 +1314,61 @@ Section Stage2.
     destruct (negb _); cbn; [reflexivity|]. destruct (_ =? _); reflexivity.
   Qed.
 
-  Lemma inv_canon_epilog x q c name values t :
-    P x -> canon_peer c = Some q -> cid_mem c (cs_canon_results (x_cids x)) = true ->
-    xres_inv P (canon_epilog (record_cid x q c) name values t c).
+  Lemma set_canon_map_value_spec x n c :
+    match set_canon_map_value x n c with
+    | POk y => core y = core x
+    | PErr e => is_catchable e = false
+    | _ => True
+    end.
   Proof.
-    intros H Q M. unfold canon_epilog.
-    pose proof (set_canon_value_spec (record_cid x q c) name {| cw_values := values; cw_tetraplet := t; cw_cid := c |}) as S.
-    destruct (set_canon_value _ _ _) as [y|e| |]; cbn [lift xres_inv]; auto.
-    - assert (x_handler y = x_handler x) as Eh.
-      { injection S as _ _ _ Eh. rewrite Eh. unfold record_cid. destruct (String.eqb _ _); reflexivity. }
-      rewrite Eh.
-      eapply inv_frame; [apply core_set_handler, S|].
-      apply (inv_record_push p0 b0 x q (false, c) (SCanon (CanonExecuted c))); auto; reflexivity.
-    - intros C. rewrite S in C. discriminate.
+    unfold set_canon_map_value, Scalars.set_value.
+    destruct (Scalars.cells_get _ _ _) as [[|last rest]|]; cbn; try reflexivity.
+    destruct (negb _); cbn; [reflexivity|]. destruct (_ =? _); reflexivity.
+  Qed.
+  Lemma set_scalar_value_spec x n v :
+    match set_scalar_value x n v with
+    | POk y => core y = core x
+    | PErr e => is_catchable e = false
+    | _ => True
+    end.
+  Proof.
+    unfold set_scalar_value, Scalars.set_value.
+    destruct (Scalars.cells_get _ _ _) as [[|last rest]|]; cbn; try reflexivity.
+    destruct (negb _); cbn; [reflexivity|]. destruct (_ =? _); reflexivity.
+  Qed.
+
+  (* the common end of the three epilogs: the context differs from the one in which the CID was registered by a frame *)
+  Lemma inv_canon_finish x q c y :
+    P x -> canon_peer c = Some q -> cid_mem c (cs_canon_results (x_cids x)) = true ->
+    core y = core (record_cid x q c) ->
+    P (set_handler y (meet_canon_end cid (x_handler y) (CanonExecuted c))).
+  Proof.
+    intros H Q M S.
+    assert (x_handler y = x_handler x) as Eh.
+    { injection S as _ _ _ Eh. rewrite Eh. unfold record_cid. destruct (String.eqb _ _); reflexivity. }
+    rewrite Eh. eapply inv_frame; [apply core_set_handler, S|].
+    apply (inv_record_push p0 b0 x q (false, c) (SCanon (CanonExecuted c))); auto; reflexivity.
+  Qed.
+
+  Lemma inv_canon_epilog k x q c values t :
+    P x -> canon_peer c = Some q -> cid_mem c (cs_canon_results (x_cids x)) = true ->
+    xres_inv P (canon_epilog k (record_cid x q c) values t c).
+  Proof.
+    intros H Q M. unfold canon_epilog. destruct k as [name|name|name].
+    - pose proof (set_canon_value_spec (record_cid x q c) name {| cw_values := values; cw_tetraplet := t; cw_cid := c |}) as S.
+      destruct (set_canon_value _ _ _) as [y|e| |]; cbn [lift xres_inv]; auto.
+      + apply (inv_canon_finish x q c y); auto.
+      + intros C. rewrite S in C. discriminate.
+    - destruct (negb (kv_pairs_valid values)); cbn [xres_inv]; [intros C; discriminate C|].
+      pose proof (set_canon_map_value_spec (record_cid x q c) name {| cmw_values := values; cmw_tetraplet := t; cmw_cid := c |}) as S.
+      destruct (set_canon_map_value _ _ _) as [y|e| |]; cbn [lift xres_inv]; auto.
+      + apply (inv_canon_finish x q c y); auto.
+      + intros C. rewrite S in C. discriminate.
+    - destruct values as [|v vs]; cbn [xres_inv]; [intros C; discriminate C|].
+      match goal with |- context [set_scalar_value ?a ?b ?d] => pose proof (set_scalar_value_spec a b d) as S;
+        destruct (set_scalar_value a b d) as [y|e| |] end; cbn [lift xres_inv]; auto.
+      + apply (inv_canon_finish x q c y); auto.
+      + intros C. rewrite S in C. discriminate.
   Qed.
 
   Lemma canon_values_by_cids_total cs l : match canon_values_by_cids cs l with PErr e => is_catchable e = false | _ => True end.
@@ -1339,7 +1381,7 @@ Section Stage2.
     destruct (canon_values_by_cids cs l); cbn [pbind]; auto.
   Qed.
 
-  Lemma inv_handle_canon_executed x p name c : P x -> xres_inv P (handle_canon_executed x p name c).
+  Lemma inv_handle_canon_executed k x p c : P x -> xres_inv P (handle_canon_executed k x p c).
   Proof.
     intros H. unfold handle_canon_executed. destruct (resolve_peer_id_to_string x p) as [peer|e| |]; cbn [lift xres_inv]; auto.
     destruct (cid_mem c (cs_canon_results (x_cids x))) eqn:M; cbn [negb xres_inv]; auto.
@@ -1376,10 +1418,10 @@ Section Stage2.
       + rewrite S1. reflexivity.
   Qed.
 
-  Lemma inv_create_canon_first_time x stream name peer : P x -> xres_inv P (create_canon_first_time x stream name peer).
+  Lemma inv_create_canon_first_time k tb x stream peer : P x -> xres_inv P (create_canon_first_time k tb x stream peer).
   Proof.
     intros H. unfold create_canon_first_time.
-    set (values := match get_stream x (v_name stream) (v_pos stream) with Some s => Stream.stream_iter vagg s | None => [] end).
+    set (values := canon_producer k tb x stream peer).
     set (cs1 := track_canon_values (x_cids x) values).
     set (rc := CCanonResult (CTetraplet (canon_tetraplet peer)) (map canon_elem_cid values)).
     set (cs2 := {| cs_values := cs_values cs1 |}).
@@ -1397,7 +1439,7 @@ Section Stage2.
       apply forallb_track; [revert Vr; apply forallb_impl; intros c; apply canon_result_entry_ok_mono, L2|].
       unfold rc, cs2. cbn [canon_result_entry_ok cs_canon_elems cs_tetraplets]. rewrite cid_mem_track_self, andb_true_r.
       apply forallb_forall. intros c Hc. apply in_map_iff in Hc as (v & <- & Hv). apply E1, Hv. }
-    apply (inv_canon_epilog (set_cids x cs2 (x_tracker x)) peer rc); [exact H2|reflexivity|].
+    apply (inv_canon_epilog k (set_cids x cs2 (x_tracker x)) peer rc); [exact H2|reflexivity|].
     unfold cs2. cbn [x_cids set_cids cs_canon_results]. apply cid_mem_track_self.
   Qed.
 
@@ -1410,9 +1452,9 @@ Section Stage2.
   Lemma inv_canon_sent x s : P x -> P (set_handler x (meet_canon_end cid (x_handler x) (CanonRequestSentBy s))).
   Proof. intros H. apply (inv_push_neutral p0 b0 x _ (SCanon (CanonRequestSentBy s))); auto; reflexivity. Qed.
 
-  Lemma inv_exec_canon x p s c : P x -> xres_inv P (exec_canon x p s c).
+  Lemma inv_exec_canon_generic k tb x p s : P x -> xres_inv P (exec_canon_generic k tb x p s).
   Proof.
-    intros H. unfold exec_canon, with_handler.
+    intros H. unfold exec_canon_generic, with_handler.
     destruct (meet_canon_start cid cid_eqb (x_handler x)) as [[r h]| |] eqn:E; cbn [xres_inv]; auto.
     pose proof (inv_meet_canon_start _ _ _ H E) as H0. cbn [fst snd].
     destruct r as [|[sender|c0]].
@@ -1445,24 +1487,56 @@ Section Stage2.
     apply inv_handler_step; [exact H|]. intros K. apply (apply_updates_ok _ _ _ E K).
   Qed.
 
-  Lemma inv_new_stream_epilog x name : P x -> xres_strong P (new_stream_epilog x name).
+  Lemma core_with_table t x m : core (with_table t x m) = core x.
+  Proof. destruct t; reflexivity. Qed.
+  Lemma inv_with_table t x m : P x -> P (with_table t x m).
+  Proof. intros H. eapply inv_frame; [apply core_with_table|exact H]. Qed.
+  Lemma inv_put_in t x n p s : P x -> P (put_in t x n p s).
+  Proof. intros H. unfold put_in. apply inv_with_table, H. Qed.
+
+  Lemma inv_new_stream_epilog t x name : P x -> xres_strong P (new_stream_epilog t x name).
   Proof.
     intros H. unfold new_stream_epilog. destruct (Stream.streams_meet_scope_end _ _ _ _) as [[[m s] pl]| |]; cbn [xres_strong]; auto.
-    apply inv_run_compact_plan. frame.
+    apply inv_run_compact_plan, inv_with_table, H.
+  Qed.
+
+  (* ---- ap into a stream map ---- *)
+  Lemma inv_exec_ap_map x k a m : P x -> xres_inv P (exec_ap_map x k a m).
+  Proof.
+    intros H. unfold exec_ap_map. destruct (apply_to_arg x a true) as [v|e| |]; cbn [xres_inv]; auto.
+    - unfold with_handler. destruct (meet_ap_start cid (x_handler x)) as [[r h]| |] eqn:E; cbn [xres_inv]; auto.
+      apply meet_ap_start_spec in E as (R & Pp & F). cbn [fst snd].
+      assert (P (set_handler x h)) as H0.
+      { apply inv_handler_step; [exact H|]. intros K. split; [eapply handler_ok_same; eauto|unfold res_trace; f_equal; exact R]. }
+      destruct (resolve_map_key (set_handler x h) k) as [key|e| |]; cbn [xres_inv]; auto.
+      + destruct (Stream.streams_add_stream_value _ _ _ _ _ _) as [tbl| |]; cbn [xres_inv]; auto.
+        assert (P (with_table TMaps (set_handler x h) tbl)) as H1 by (apply inv_with_table, H0).
+        apply (inv_push_neutral p0 b0 _ _ (SAp [generation_stub])); auto; reflexivity.
+      + destruct (is_joinable e); cbn [xres_inv]; auto; try frame.
+    - destruct (is_joinable e); cbn [xres_inv]; auto; try frame.
   Qed.
 
   Section WithRun.
     Variable run : instr -> ctx -> xres.
     Hypothesis Hrun : exec_preserves P run.
 
-    Lemma inv_exec_new_stream x sv body sp : P x -> xres_inv P (exec_new_stream run x sv body sp).
+    Lemma inv_exec_new_stream t x sv body sp : P x -> xres_inv P (exec_new_stream t run x sv body sp).
     Proof.
       intros H. unfold exec_new_stream.
-      match goal with |- xres_inv P (match run body ?x1 with _ => _ end) => assert (P x1) as H1 by frame; pose proof (Hrun body _ H1) as R;
+      match goal with |- xres_inv P (match run body ?x1 with _ => _ end) => assert (P x1) as H1 by (apply inv_with_table, H); pose proof (Hrun body _ H1) as R;
         destruct (run body x1) as [y|e y| | |] end; cbn [xres_inv] in *; auto.
       - apply xres_inv_strong, inv_new_stream_epilog, R.
-      - pose proof (fun C => inv_new_stream_epilog y (v_name sv) (R C)) as K.
-        destruct (new_stream_epilog y (v_name sv)) as [y'|e' y'| | |]; cbn [xres_inv xres_strong] in *; auto.
+      - pose proof (fun C => inv_new_stream_epilog t y (v_name sv) (R C)) as K.
+        destruct (new_stream_epilog t y (v_name sv)) as [y'|e' y'| | |]; cbn [xres_inv xres_strong] in *; auto.
+    Qed.
+
+    Lemma inv_exec_new_canon_map x v body : P x -> xres_inv P (exec_new_canon_map run x v body).
+    Proof.
+      intros H. unfold exec_new_canon_map.
+      match goal with |- xres_inv P (match run body ?x1 with _ => _ end) => assert (P x1) as H1 by frame; pose proof (Hrun body _ H1) as R;
+        destruct (run body x1) as [y|e y| | |] end; cbn [xres_inv] in *; auto.
+      - destruct (Scalars.meet_new_end _ _ _); cbn [lift xres_inv]; auto; try frame; try (intros C; discriminate C).
+      - destruct (Scalars.meet_new_end _ _ _); cbn [xres_inv]; auto; try (intros C; specialize (R C); frame).
     Qed.
 
     (* ---- stream folds ---- *)
@@ -1497,25 +1571,25 @@ Section Stage2.
       - cbn [fst xres_inv]. intros C. rewrite C in Ec. discriminate.
     Qed.
 
-    Lemma inv_fold_stream_loop n : forall x st rc sv iter body last fold_id observed,
-      P x -> xres_inv P (fst (fold_stream_loop n run x st rc sv iter body last fold_id observed)).
+    Lemma inv_fold_stream_loop t n : forall x st rc sv iter body last fold_id observed,
+      P x -> xres_inv P (fst (fold_stream_loop t n run x st rc sv iter body last fold_id observed)).
     Proof.
       induction n as [|n IH]; intros x st rc sv iter body last fold_id observed H; destruct st as [batches|]; cbn [fold_stream_loop fst xres_inv]; auto.
       pose proof (inv_execute_iterations batches x fold_id iter body last observed H) as R.
       destruct (execute_iterations run x batches fold_id iter body last observed) as [[y|e y| | |] obs]; cbn [fst xres_inv] in *; auto.
-      destruct (get_stream y (v_name sv) (v_pos sv)) as [s|]; cbn [fst xres_inv]; auto.
+      destruct (get_in t y (v_name sv) (v_pos sv)) as [s|]; cbn [fst xres_inv]; auto.
       destruct (Stream.met_iteration_end vagg rc s) as [[[st' rc'] s']| |]; cbn [fst xres_inv]; auto.
-      all: try (apply IH; frame).
+      all: try (apply IH, inv_put_in; assumption).
     Qed.
 
-    Lemma inv_exec_fold_stream x sv iter body last : P x -> xres_inv P (exec_fold_stream run x sv iter body last).
+    Lemma inv_exec_fold_stream t x sv iter body last : P x -> xres_inv P (exec_fold_stream t run x sv iter body last).
     Proof.
-      intros H. unfold exec_fold_stream. destruct (get_stream x (v_name sv) (v_pos sv)) as [s|]; cbn [xres_inv]; [|frame].
+      intros H. unfold exec_fold_stream. destruct (get_in t x (v_name sv) (v_pos sv)) as [s|]; cbn [xres_inv]; [|frame].
       apply inv_with_trace; [frame|intros h E; apply (meet_fold_start_ok _ _ _ E)|]. intros x2 H2.
       destruct (Stream.met_fold_start vagg Stream.rcursor_new s) as [[[st rc] s']| |]; cbn [xres_inv]; auto.
-      match goal with |- xres_inv P (let (_, _) := fold_stream_loop ?n run ?x3 ?a ?b ?c ?d ?e ?f ?g ?o in _) =>
-        assert (P x3) as H3 by frame; pose proof (inv_fold_stream_loop n x3 a b c d e f g o H3) as R;
-        destruct (fold_stream_loop n run x3 a b c d e f g o) as [[y|e0 y| | |] obs] end; cbn [fst xres_inv] in *; auto.
+      match goal with |- xres_inv P (let (_, _) := fold_stream_loop ?t0 ?n run ?x3 ?a ?b ?c ?d ?e ?f ?g ?o in _) =>
+        assert (P x3) as H3 by (apply inv_put_in, H2); pose proof (inv_fold_stream_loop t0 n x3 a b c d e f g o H3) as R;
+        destruct (fold_stream_loop t0 n run x3 a b c d e f g o) as [[y|e0 y| | |] obs] end; cbn [fst xres_inv] in *; auto.
       apply inv_with_trace; [frame|intros h E; apply (meet_fold_end_ok _ _ _ E)|]. intros y2 Hy2. exact Hy2.
     Qed.
 
@@ -1538,22 +1612,37 @@ Section Stage2.
 
   Theorem stream_instr_preserves : stream_hook_preserves P stream_instr.
   Proof.
-    intros run i x r Hrun H E. destruct i; cbn [stream_instr] in E; try discriminate.
-    - destruct r0; [discriminate|]. injection E as <-. apply inv_exec_ap_stream, H.
-    - injection E as <-. apply inv_exec_canon, H.
+    intros run i x r Hrun H E.
+    destruct i as [text t args out|text a dst|text k a m|text p s c|text p m c|text p m s|i1 i2|i1 i2|i1 i2
+                   |text lhs rhs body|text lhs rhs body|text f|text iterable iter body last sp|text s iter body last sp
+                   |text m iter body last sp| |text arg body sp|text iter| |]; cbn [stream_instr] in E; try discriminate.
+    - destruct dst; [discriminate|]. injection E as <-. apply inv_exec_ap_stream, H.
+    - injection E as <-. apply inv_exec_ap_map, H.
+    - injection E as <-. apply inv_exec_canon_generic, H.
+    - injection E as <-. apply inv_exec_canon_generic, H.
+    - injection E as <-. apply inv_exec_canon_generic, H.
     - injection E as <-. apply inv_exec_fold_stream; assumption.
-    - destruct a; try discriminate. injection E as <-. apply inv_exec_new_stream; assumption.
+    - injection E as <-. apply inv_exec_fold_stream; assumption.
+    - destruct arg; try discriminate; injection E as <-;
+        first [apply inv_exec_new_stream; assumption|apply inv_exec_new_canon_map; assumption].
     - destruct (iter_get _ _) as [fs|]; [|discriminate]. destruct (fs_type fs); [discriminate|].
       injection E as <-. apply inv_exec_next_stream; assumption.
   Qed.
 
+  Lemma inv_compactify_table t x : P x -> xres_strong P (compactify_table t x).
+  Proof.
+    intros H. unfold compactify_table. destruct (Stream.streams_compactify _ _ _ _) as [m pl].
+    apply inv_run_compact_plan, inv_with_table, H.
+  Qed.
+
   Theorem finish_streams_preserves x x' : P x -> finish_streams x = inl x' -> P x'.
   Proof.
-    intros H. unfold finish_streams. destruct (Stream.streams_compactify _ _ _ _) as [m pl].
-    match goal with |- context [run_compact_plan ?y pl] => assert (P y) as Hy by frame; pose proof (inv_run_compact_plan y pl Hy) as R;
-      destruct (run_compact_plan y pl) as [z|e z| | |] end; cbn [xres_strong] in R; try discriminate.
-    - intros [= <-]. exact R.
-    - destruct e; discriminate.
+    intros H. unfold finish_streams.
+    pose proof (inv_compactify_table TStreams x H) as R.
+    destruct (compactify_table TStreams x) as [y|e y| | |]; cbn [xres_strong] in R; try discriminate; [|destruct e; discriminate].
+    pose proof (inv_compactify_table TMaps y R) as R2.
+    destruct (compactify_table TMaps y) as [z|e z| | |]; cbn [xres_strong] in R2; try discriminate; [|destruct e; discriminate].
+    intros [= <-]. exact R2.
   Qed.
 End Stage2.
 
